@@ -489,9 +489,10 @@ func c17graphs(n int, thorough bool) []c17graph {
 					self = true
 				}
 			}
-			if self && !a.Distinct {
+			if self && !a.Distinct && a.Kind == 3 {
 				continue
 			}
+			_ = self // uniqued self references (`!0 = !{!0}`, the old-style loop ID) are valid text and are included
 			if !thorough && n >= 3 {
 				// n=3 quick: restrict kinds of later nodes to tuples (first node varies over all kinds).
 				if len(cur) > 0 && a.Kind != 0 {
